@@ -3,6 +3,7 @@
 use vstd::prelude::*;
 use std::fmt;
 //@include _prelude.rs
+//@alloc_budget
 
 verus! {
 //@include _panic.rs
